@@ -39,6 +39,8 @@ FORMULAS = {
     'address5': '=ADDRESS(1,2,4,TRUE,"S")', 'text_fn': '=TEXT(B1,"0.00")', 'neg_pct_chain': '=-B1%+2%',
     'row_zero': '=A0+1', 'abs_row_zero': '=$B$0', 'range_row_zero': '=SUM(A0:A2)', 'col_4letters': '=ZZZZ1+1', 'wholecol_4letters': '=SUM(AAAA:AAAA)',
     'half_open_area': '=SUM(B1:C)', 'half_open_area2': '=SUM(B:C2)', 'empty_title': '=!B1+1', 'empty_quoted_title': "=''!B1+1",
+    # a number no double can hold; a flat sum of 1500 terms (4.5k characters: within Excel's limit); a whole column as the sum range; COLUMN of a column that cannot exist
+    'exp_huge': '=1e5000+1', 'long_sum': '=' + '+'.join(['B1'] * 1500), 'sumif_wholecol_target': '=SUMIF(B1:B2,">1",C:C)', 'column_4letters': '=COLUMN(ZZZZ1)',
     'col_beyond_xfd': '=XFE1+1', 'row_huge': '=A99999999+1', 'brackets8': '=((((((((B1))))))))+1',
 }
 
